@@ -54,9 +54,9 @@ def main():
         "setup_cmd": "./setup.sh",
         "hooks": {
             "guard": "QUANTARHEI_VERIF",
-            "enable": "no source hooks: contracts are sidecar files under /verif/props, replays drive the public "
-                      "API; the guard only switches on the optional runtime contract monitor "
-                      "(/verif/native/sitecustomize.py on PYTHONPATH)",
+            "enable": "no source hooks were needed: contracts are sidecar files under /verif/props read against the "
+                      "unmodified source, replays and oracles drive the public API of the code in QVC_REPO (default "
+                      "/repo); the guard variable is reserved and switches nothing on in /repo",
             "baseline_off_cmd": BASELINE_CMD,
             "source_commits": [],
             "add_only": True,
